@@ -20,7 +20,7 @@ import (
 // ---------------------------------------------------------------------------
 // Documents (G-doc)
 
-var docKeys = []string{"a", "b", "c", "d", "", "é", "k-1", "a"}
+var docKeys = []string{"a", "b", "c", "d", "", "é", "k-1", "a", "A", "B", "É", "a "}
 var docStrings = []string{"", "a", "b", "ab", "é", "𝒳y", "10", "1e2", "x y", "'", "\"", "\\", "`", "100%", "%s%d", "a%%b", "<&>", "\u2028"}
 var docNumbers = []float64{0, 1, -1, 2, 3, 10, 0.5, -2.5, 1e15, 7}
 
@@ -265,7 +265,7 @@ func spellKey(g *exprGen, k string) string {
 	return ref.QuoteJSON(k)
 }
 
-var vocabKeys = []string{"a", "b", "c", "d", "", "é", "k-1", "zz"}
+var vocabKeys = []string{"a", "b", "c", "d", "", "é", "k-1", "zz", "A", "É", "a "}
 
 func (g *exprGen) keyFor(cur interface{}) string {
 	if m, ok := cur.(map[string]interface{}); ok && len(m) > 0 && !g.pct(g.f.mismatch, "missKey") {
